@@ -28,7 +28,7 @@ ASSUMPTIONS = [
     "union bound over designs, objectives and rounds as the property states; all K designs active in every round",
     "Auer: default (non-empirical) schedule only, noise variance <= 1",
 ]
-N = {"quick": 48, "thorough": 1600}
+N = {"quick": 48, "thorough": 480}
 REQUIRE = {"quick": {"configs": 300, "variants_seen": 8, "modeling_path_checked": 200, "monotone_samples": 5000}}
 TIMEOUT = {"quick": 1200, "thorough": 5400}
 VARIANTS = ["PaVeBa", "PaVeBaGP-IH", "PaVeBaGP-DE", "PaVeBaPartialGP-rect", "PaVeBaPartialGP-ell", "VOGP", "EpsilonPAL", "Auer"]
